@@ -1,4 +1,5 @@
 #!/bin/bash
+export VERIF_EVIDENCE_DIR=/tmp/verif_scratch_evidence   # runs on a modified /repo must not overwrite the committed evidence
 # usage: tools/try_patch.sh <patch.diff> <ID> [<ID>...]   — apply a patch to /repo, run the checks, revert.
 P="$1"; shift
 git -C /repo apply "$P" || { echo "patch does not apply"; exit 2; }
